@@ -435,6 +435,10 @@ def _valid_ecdsa(pk_raw, sig_raw, z):
         sig = Signature.parse(sig_raw[:-1])
     except Exception:
         return False
+    # the range rule of the specification, independently of S256Point.verify (the oracle must not move with it)
+    n_ = 0xFFFFFFFFFFFFFFFFFFFFFFFFFFFFFFFEBAAEDCE6AF48A03BBFD25E8CD0364141
+    if not (1 <= sig.r < n_ and 1 <= sig.s < n_):
+        return False
     k = ("e", (pk_raw, z, sig_raw[:-1]))
     if k not in _S["vcache"]:
         _S["vcache"][k] = pt.verify(z, sig)
@@ -848,6 +852,16 @@ def mutations(rng, sp, tx, idx, foreign):
         du = list(items)
         du[b] = du[a]
         yield with_items("duplicate_sig", du)
+    if sig_pos and shape != "p2tr":
+        # degenerate ECDSA signatures nobody needs a key for: r = s = 0 (u*G + v*P is then the point at infinity),
+        # r = s = n, in every signature slot, with the original hash-type byte
+        for nm, rs in (("zero", b"\x02\x01\x00\x02\x01\x00"),
+                       ("n", b"\x02\x21\x00" + (0xFFFFFFFFFFFFFFFFFFFFFFFFFFFFFFFEBAAEDCE6AF48A03BBFD25E8CD0364141).to_bytes(32, "big") * 1
+                        + b"\x02\x21\x00" + (0xFFFFFFFFFFFFFFFFFFFFFFFFFFFFFFFEBAAEDCE6AF48A03BBFD25E8CD0364141).to_bytes(32, "big"))):
+            dz = list(items)
+            for i in sig_pos:
+                dz[i] = bytes([0x30, len(rs)]) + rs + items[i][-1:]
+            yield with_items(f"all_{nm}_sigs", dz)
     if sig_pos:
         # all signatures replaced by foreign ones (m-of-n with no valid signature at all)
         al = list(items)
